@@ -99,4 +99,27 @@ example : (run St.init (trace.take 3 ++ [.acceptBegin 1])).isNone = true := by d
 example : ((run St.init (trace.take 5)).map (fun s => (s.phase, s.stopReq, decide s.coQuiet))) = some (.up, true, true) := by
   decide +kernel
 
+/-! ### the runtime glue as written in the source
+
+The model of this property was transcribed from these functions (the life cycle: `accept` (behind the `exclusive()` guard, whose shape is pinned separately), `shutdown`, the acceptor payload with its `running` / `_is_shutdown` events, start and stop of the runners - the events `acceptBegin`, `acceptRejected`, `shutdownCall`, `close`, `endRun` of the LTS and the phases of a run).
+`Gen.runtimePins` is recomputed on every run: the normalised text of every function of the runner
+modules (docstrings, annotations and logging statements dropped) is compared with the text the
+model was last transcribed from (`harness/vh/pins.json`). A changed function breaks this theorem;
+the scenario families are then the search for a failing history. -/
+
+theorem gen_runtime_text :
+    ∀ n ∈ ["service:ServiceRunner.__init__",
+     "service:ServiceRunner.accept",
+     "service:ServiceRunner.shutdown",
+     "service:ServiceRunner._accept_services",
+     "meta_runner:MetaRunner.__init__",
+     "meta_runner:MetaRunner.run",
+     "meta_runner:MetaRunner.stop",
+     "meta_runner:MetaRunner._launch_runners",
+     "meta_runner:MetaRunner._aclose_runners",
+     "base_runner:BaseRunner.__init__",
+     "base_runner:BaseRunner.run",
+     "base_runner:BaseRunner.stop"],
+      Gen.pinned n = true := by decide
+
 end Cobald.Props.C12
